@@ -5,10 +5,10 @@ use faststr::FastStr;
 use sonic_rs::{LazyValue, Result as SResult};
 use vbase::engine::{Ctx, Fail, Obs, Src, Sub};
 use vbase::gens::{self, DocParams};
-use vbase::refjson::{self, is_ws, lex_string, scan, show_bytes, skip_ws, NoSink, Span};
+use vbase::refjson::{self, is_ws, lex_string, scan, show_bytes, skip_ws, trunc, NoSink, Span};
 use vbase::{ensure, fail};
 
-pub const RULE: &str = "cases are byte strings whose first value is (usually) an array or object: generated containers of size 0..=40 with nesting, escaped keys, whitespace variation and trailing bytes after the container, shallow containers with 64..1030 tiny members, bracket-burst containers whose elements close one or more 64-byte blocks after they opened, every truncation / substitution / deletion of a set of them, random mutations, UTF-8 damage. For each input both iterator kinds run over &[u8], &str, &String, &Bytes, &FastStr (checked), the *_unchecked forms and LazyValue::into_array_iter/into_object_iter (well-formed input only). Expected (reference scan): one item per leading member that is a well-formed value behind a correct separator (and key and colon) with raw text == exact source span and key == decoded name; then None if the container closed correctly, otherwise exactly one Err; afterwards None on three further polls. For non-UTF-8 input the Ok items must be a prefix of the reference items followed by exactly one Err (the iterators validate UTF-8 up front). Non-trivial = >= 2 members (well-formed) or >= 1 leading member before the violation (malformed); distinct by input.";
+pub const RULE: &str = "cases are byte strings whose first value is (usually) an array or object: generated containers of size 0..=40 with nesting, escaped keys, whitespace variation and trailing bytes after the container, shallow containers with 64..1030 tiny members, bracket-burst containers whose elements close one or more 64-byte blocks after they opened, every truncation / substitution / deletion of a set of them, random mutations, UTF-8 damage. For each input both iterator kinds run over &[u8], &str, &String, &Bytes, &FastStr (checked), the *_unchecked forms and LazyValue::into_array_iter/into_object_iter (well-formed input only). Iterator adaptors (nth, skip, step_by, count, last, fold) on a fresh iterator must agree with the same adaptor applied to the items collected by repeated next(), and leave the iterator latched. Expected (reference scan): one item per leading member that is a well-formed value behind a correct separator (and key and colon) with raw text == exact source span and key == decoded name; then None if the container closed correctly, otherwise exactly one Err; afterwards None on three further polls. For non-UTF-8 input the Ok items must be a prefix of the reference items followed by exactly one Err (the iterators validate UTF-8 up front). Non-trivial = >= 2 members (well-formed) or >= 1 leading member before the violation (malformed); distinct by input.";
 pub const ASSUMPTIONS: &[&str] = &["refjson scanner", "members whose only defect is an unpaired surrogate escape may be yielded or rejected (the statement does not fix the tier for values)"];
 
 #[derive(Debug, Clone, PartialEq)]
@@ -99,9 +99,52 @@ fn leading(b: &[u8], is_obj: bool) -> Lead {
     }
 }
 
+#[derive(PartialEq, Clone, Debug)]
 enum Item {
     Ok(Option<String>, Vec<u8>),
     Err,
+}
+
+fn arr_item(r: SResult<LazyValue<'_>>) -> Item {
+    match r {
+        Ok(l) => Item::Ok(None, l.as_raw_str().as_bytes().to_vec()),
+        Err(_) => Item::Err,
+    }
+}
+fn obj_item(r: SResult<(std::borrow::Cow<'_, str>, LazyValue<'_>)>) -> Item {
+    match r {
+        Ok((k, l)) => Item::Ok(Some(k.into_owned()), l.as_raw_str().as_bytes().to_vec()),
+        Err(_) => Item::Err,
+    }
+}
+
+/// Iterator adaptors (`nth`, `skip`, `step_by`, `count`, `last`, `fold`-based consumers) on a fresh
+/// iterator must give what the same adaptor gives on the item sequence collected by repeated `next()`
+/// (`base`, which ends after the first error), and the iterator must stay silent afterwards.
+fn adaptors<T, I: Iterator<Item = T>>(api: &str, kind: &str, make: &dyn Fn() -> I, conv: &dyn Fn(T) -> Item, base: &[Item], b: &[u8]) -> Result<(), Fail> {
+    let show = |v: &[Item]| format!("{:?}", v.iter().map(|x| match x { Item::Ok(_, raw) => String::from_utf8_lossy(raw).into_owned(), Item::Err => "<Err>".into() }).collect::<Vec<_>>());
+    for k in 0..=(base.len() + 1).min(5) {
+        let mut it = make();
+        let first = it.nth(k).map(conv);
+        ensure!(first.as_ref() == base.get(k), format!("C12/{kind}/adaptor/nth"), "{api}.nth({k}) on {:?} = {:?}, but item {k} of plain iteration is {:?}", show_bytes(b, 300), first, base.get(k));
+        let rest: Vec<Item> = it.by_ref().take(100_000).map(conv).collect();
+        let want: &[Item] = if k + 1 <= base.len() { &base[k + 1..] } else { &[] };
+        ensure!(rest == want, format!("C12/{kind}/adaptor/after-nth"), "{api} on {:?}: after nth({k}) the iterator yields {}, plain iteration continues with {}", show_bytes(b, 300), trunc(&show(&rest), 200), trunc(&show(want), 200));
+        ensure!((0..3).all(|_| it.next().is_none()), format!("C12/{kind}/adaptor/not-latched"), "{api} on {:?}: yields something after nth({k}) and the end", show_bytes(b, 300));
+        let skipped: Vec<Item> = make().skip(k).take(100_000).map(conv).collect();
+        let want: &[Item] = if k <= base.len() { &base[k..] } else { &[] };
+        ensure!(skipped == want, format!("C12/{kind}/adaptor/skip"), "{api}.skip({k}) on {:?} yields {}, expected {}", show_bytes(b, 300), trunc(&show(&skipped), 200), trunc(&show(want), 200));
+    }
+    for step in [2usize, 3] {
+        let got: Vec<Item> = make().step_by(step).take(100_000).map(conv).collect();
+        let want: Vec<Item> = base.iter().step_by(step).cloned().collect();
+        ensure!(got == want, format!("C12/{kind}/adaptor/step_by"), "{api}.step_by({step}) on {:?} yields {}, expected {}", show_bytes(b, 300), trunc(&show(&got), 200), trunc(&show(&want), 200));
+    }
+    ensure!(make().count() == base.len(), format!("C12/{kind}/adaptor/count"), "{api}.count() on {:?} = {}, plain iteration yields {} items", show_bytes(b, 300), make().count(), base.len());
+    ensure!(make().last().map(conv).as_ref() == base.last(), format!("C12/{kind}/adaptor/last"), "{api}.last() on {:?} differs from the last item of plain iteration", show_bytes(b, 300));
+    let folded = make().fold(0usize, |n, _| n + 1);
+    ensure!(folded == base.len(), format!("C12/{kind}/adaptor/fold"), "{api}.fold on {:?} visits {folded} items, plain iteration yields {}", show_bytes(b, 300), base.len());
+    Ok(())
 }
 
 fn collect_arr<'a>(it: impl Iterator<Item = SResult<LazyValue<'a>>>) -> (Vec<Item>, bool) {
@@ -210,7 +253,11 @@ pub fn oracle(b: &[u8], obs: &mut Obs) -> Result<(), Fail> {
     // checked iterators over every carrier
     judge("to_array_iter(&[u8])", "array", &collect_arr(sonic_rs::to_array_iter(b)), &wa, b, utf8, true)?;
     judge("to_object_iter(&[u8])", "object", &collect_obj(sonic_rs::to_object_iter(b)), &wo, b, utf8, true)?;
+    adaptors("to_array_iter(&[u8])", "array", &|| sonic_rs::to_array_iter(b), &arr_item, &collect_arr(sonic_rs::to_array_iter(b)).0, b)?;
+    adaptors("to_object_iter(&[u8])", "object", &|| sonic_rs::to_object_iter(b), &obj_item, &collect_obj(sonic_rs::to_object_iter(b)).0, b)?;
     let by = Bytes::copy_from_slice(b);
+    adaptors("to_array_iter(&Bytes)", "array", &|| sonic_rs::to_array_iter(&by), &arr_item, &collect_arr(sonic_rs::to_array_iter(&by)).0, b)?;
+    adaptors("to_object_iter(&Bytes)", "object", &|| sonic_rs::to_object_iter(&by), &obj_item, &collect_obj(sonic_rs::to_object_iter(&by)).0, b)?;
     judge("to_array_iter(&Bytes)", "array", &collect_arr(sonic_rs::to_array_iter(&by)), &wa, b, utf8, true)?;
     judge("to_object_iter(&Bytes)", "object", &collect_obj(sonic_rs::to_object_iter(&by)), &wo, b, utf8, true)?;
     if let Ok(s) = std::str::from_utf8(b) {
@@ -231,6 +278,8 @@ pub fn oracle(b: &[u8], obs: &mut Obs) -> Result<(), Fail> {
                 judge("to_object_iter_unchecked(&str)", "object", &collect_obj(sonic_rs::to_object_iter_unchecked(s)), &wo, b, true, first == Some(b'{'))?;
                 judge("to_array_iter_unchecked(&[u8])", "array", &collect_arr(sonic_rs::to_array_iter_unchecked(b)), &wa, b, true, first == Some(b'['))?;
                 judge("to_object_iter_unchecked(&Bytes)", "object", &collect_obj(sonic_rs::to_object_iter_unchecked(&by)), &wo, b, true, first == Some(b'{'))?;
+                adaptors("to_array_iter_unchecked(&str)", "array", &|| sonic_rs::to_array_iter_unchecked(s), &arr_item, &collect_arr(sonic_rs::to_array_iter_unchecked(s)).0, b)?;
+                adaptors("to_object_iter_unchecked(&str)", "object", &|| sonic_rs::to_object_iter_unchecked(s), &obj_item, &collect_obj(sonic_rs::to_object_iter_unchecked(s)).0, b)?;
             }
             // whole document well-formed: LazyValue route
             if let Ok(lv) = sonic_rs::from_str::<LazyValue>(s) {
